@@ -2,10 +2,84 @@
 From Coq Require Import List NArith Bool.
 From K.Model Require Export C38.
 Import ListNotations.
+Local Open Scope N_scope.
 
-(* one path, the components it was built from (None: mutated / arbitrary path), and what the
-   eight real functions returned for it *)
-Record case := mkcase { c_path : list N; c_built : option pk; c_obs : obs }.
+(* Compact notation for paths in generated case files: a path is the join of its '/'-separated
+   segments; frequent segments have names (the layout's keywords, a pool of digests). *)
+Definition J (l : list (list N)) : list N := join l.
+Definition kE : list N := [].
+Definition kDocker : list N := [100; 111; 99; 107; 101; 114].
+Definition kRegistry : list N := [114; 101; 103; 105; 115; 116; 114; 121].
+Definition kV2 : list N := [118; 50].
+Definition kRepos := s_repositories.
+Definition kM := s_manifests.
+Definition kLy := s_layers.
+Definition kU := s_uploads.
+Definition kB := s_blobs.
+Definition kS := s_sha256.
+Definition kT := s_tags.
+Definition kRv := s_revisions.
+Definition kDa := s_data.
+Definition kL := s_link.
+Definition kC := s_current.
+Definition kI := s_index.
+Definition kSt := s_startedat.
+Definition kHs := s_hashstates.
+Fixpoint reps (n : nat) (l : list N) : list N := match n with O => [] | S n' => l ++ reps n' l end.
+Definition dg0 : list N := (* ff3a5c916c92643ff77519ffa742d3ec61b7f591b6b7504599d95a4a41134e28 (paths_test.go) *)
+  [102; 102; 51; 97; 53; 99; 57; 49; 54; 99; 57; 50; 54; 52; 51; 102; 102; 55; 55; 53; 49; 57; 102; 102; 97; 55; 52; 50; 100; 51; 101; 99;
+   54; 49; 98; 55; 102; 53; 57; 49; 98; 54; 98; 55; 53; 48; 52; 53; 57; 57; 100; 57; 53; 97; 52; 97; 52; 49; 49; 51; 52; 101; 50; 56].
+Definition dg1 := reps 64 [97].                                  (* a...a *)
+Definition dg2 := reps 64 [48].                                  (* 0...0 *)
+Definition dg3 := reps 64 [102].                                 (* f...f *)
+Definition dg4 := reps 4 [48; 49; 50; 51; 52; 53; 54; 55; 56; 57; 97; 98; 99; 100; 101; 102].   (* 0123456789abcdef x4 *)
+Definition dg5 := reps 4 [97; 98; 99; 100; 101; 102; 48; 49; 50; 51; 52; 53; 54; 55; 56; 57].   (* abcdef0123456789 x4 *)
+Definition dg6 := reps 32 [57; 101].                             (* 9e x32 *)
+Definition dg7 := reps 16 [99; 48; 102; 102].                    (* c0ff x16 *)
+
+(* To keep the generated files small, a string that occurs in the path is written as
+   (Sub start length); anything else as (Str bytes). *)
+Inductive ostr := Sub (start len : N) | Str (s : list N).
+Definition rs (p : list N) (o : ostr) : list N :=
+  match o with
+  | Sub a l => firstn (N.to_nat l) (skipn (N.to_nat a) p)
+  | Str s => s
+  end.
+
+(* the components a path was built from: kind number (order of Model.pk), KLayer's flag, components *)
+Inductive rpk := RK (kind : N) (data : bool) (args : list ostr).
+Definition mkpk (p : list N) (r : rpk) : option pk :=
+  match r with
+  | RK kind d args =>
+      match kind, map (rs p) args with
+      | 0, [r] => Some (KRevisions r)
+      | 1, [r; h] => Some (KRevision r h)
+      | 2, [r] => Some (KTags r)
+      | 3, [r; t] => Some (KTagCurrent r t)
+      | 4, [r; t; h] => Some (KTagIndex r t h)
+      | 5, [r; h] => Some (KLayer d r h)
+      | 6, [h] => Some (KBlob h)
+      | 7, [r; u] => Some (KUploadData r u)
+      | 8, [r; u] => Some (KUploadStartedAt r u)
+      | 9, [r; u; a] => Some (KUploadHashStates r u a)
+      | 10, [r; u; a; o] => Some (KUploadHashState r u a o)
+      | _, _ => None
+      end
+  end.
+
+(* what the eight real functions returned *)
+Record robs := mkrobs {
+  r_parse : option (ostr * ostr); r_repo : option ostr; r_tag : option (ostr * bool);
+  r_blob : option ostr; r_layer : option ostr; r_manifest : option ostr; r_uuid : option ostr;
+  r_algo : option (ostr * ostr) }.
+Definition omap {A B} (f : A -> B) (o : option A) : option B := match o with Some x => Some (f x) | None => None end.
+Definition resolve (p : list N) (o : robs) : obs :=
+  let s := rs p in
+  mkobs (omap (fun x => (s (fst x), s (snd x))) (r_parse o)) (omap s (r_repo o))
+        (omap (fun x => (s (fst x), snd x)) (r_tag o)) (omap s (r_blob o)) (omap s (r_layer o))
+        (omap s (r_manifest o)) (omap s (r_uuid o)) (omap (fun x => (s (fst x), s (snd x))) (r_algo o)).
+
+Record case := mkcase { c_path : list N; c_built : option rpk; c_obs : robs }.
 
 Fixpoint idx_filter (f : case -> bool) (i : N) (cs : list case) : list N :=
   match cs with
@@ -14,6 +88,14 @@ Fixpoint idx_filter (f : case -> bool) (i : N) (cs : list case) : list N :=
   end.
 
 Definition mismatches (cs : list case) : list N :=
-  idx_filter (fun c => negb (obs_eqb (observe (c_path c)) (c_obs c))) 0%N cs.
+  idx_filter (fun c => negb (obs_eqb (observe (c_path c)) (resolve (c_path c) (c_obs c)))) 0%N cs.
+(* a case whose components do not decode is reported too (driver error must not pass silently) *)
 Definition violations (cs : list case) : list N :=
-  idx_filter (fun c => negb (C38_check (c_path c) (c_built c) (c_obs c))) 0%N cs.
+  idx_filter (fun c =>
+    match c_built c with
+    | None => false
+    | Some r => match mkpk (c_path c) r with
+                | None => true
+                | Some k => negb (C38_check (c_path c) (Some k) (resolve (c_path c) (c_obs c)))
+                end
+    end) 0%N cs.
